@@ -772,3 +772,80 @@ Proof.
   - now inversion H.
   - now apply IH.
 Qed.
+
+(* ---------- Part 6: scripts on one column object ---------- *)
+Lemma script_copy_erasable : forall steps s h,
+  script_run s h (filter not_copy steps) = script_run s h steps.
+Proof.
+  induction steps as [|k r IH]; intros s h; [reflexivity|].
+  destruct k as [|f| |n|j]; cbn [filter not_copy script_run].
+  - destruct (st_expand s) as [o|e]; [|reflexivity]. now rewrite IH.
+  - destruct (st_fn f s) as [s'|e]; [|reflexivity]. apply IH.
+  - apply IH.
+  - apply IH.
+  - now rewrite IH.
+Qed.
+
+Lemma script_reread_stable : forall (A : Type) k (h x : list A) d,
+  k < length h -> nth k (h ++ x) d = nth k h d.
+Proof. intros. now apply app_nth1. Qed.
+
+(* the scripts generalise the single-step models *)
+
+Lemma script_rle_single : forall l f, script_np (CRle l) (one_fn f) = [mat_only (rle_np l f)].
+Proof.
+  intros l f. unfold script_np, rle_np, st_build, one_fn.
+  destruct (rle_encode py_eqb l) as [rv ls].
+  destruct (np_array rv) as [[dv sv]|e]; cbn [bind]; [|reflexivity].
+  destruct f as [g|]; [cbn [script_run st_fn bind] | cbn [script_run st_expand apply_fn bind]].
+  - destruct (apply_fn (Some g) dv sv) as [[dv' sv']|e]; cbn [bind]; [|reflexivity].
+    cbn [script_run st_expand].
+    destruct (np_array (rle_decode sv' ls)) as [[odt out]|e]; reflexivity.
+  - destruct (np_array (rle_decode sv ls)) as [[odt out]|e]; reflexivity.
+Qed.
+
+Lemma script_dict_single : forall l f, script_np (CDict l) (one_fn f) = [mat_only (dict_np l f)].
+Proof.
+  intros l f. unfold script_np, dict_np, st_build, one_fn.
+  destruct (np_array l) as [[dv arr]|e]; cbn [bind]; [|reflexivity].
+  destruct (dtype_eqb dv DObj && (2 <=? length arr)); [reflexivity|].
+  destruct (dict_encode dict_eqb dict_leb arr) as [u codes].
+  destruct f as [g|]; [cbn [script_run st_fn bind] | cbn [script_run st_expand apply_fn bind]].
+  - destruct (apply_fn (Some g) dv u) as [[dv' u']|e]; cbn [bind]; [|reflexivity].
+    cbn [script_run st_expand]. destruct (gather u' codes); reflexivity.
+  - destruct (gather u codes); reflexivity.
+Qed.
+
+Lemma script_sparse_single : forall l d f, script_np (CSparse l d) (one_fn f) = [mat_only (sparse_np l d f)].
+Proof.
+  intros l d f. unfold script_np, sparse_np, st_build, one_fn.
+  destruct (np_array l) as [[dv arr]|e]; cbn [bind]; [|reflexivity].
+  destruct (np_cmp_guard dv d) as [u|e]; cbn [bind]; [|reflexivity].
+  destruct (sparse_encode (np_neqb dv) arr d) as [[idx vals] n].
+  destruct f as [g|]; [cbn [script_run st_fn bind] | cbn [script_run st_expand apply_fn bind]].
+  - destruct (apply_fn (Some g) dv vals) as [[dv' vals']|e]; cbn [bind]; [|reflexivity].
+    cbn [script_run st_expand].
+    destruct (mat_dtype dv' d) as [dt|e]; cbn [bind]; [|reflexivity].
+    destruct (np_cast dt d) as [fill|e]; cbn [bind]; [|reflexivity].
+    destruct (mapM (np_cast dt) vals') as [v2|e]; reflexivity.
+  - destruct (mat_dtype dv d) as [dt|e]; cbn [bind]; [|reflexivity].
+    destruct (np_cast dt d) as [fill|e]; cbn [bind]; [|reflexivity].
+    destruct (mapM (np_cast dt) vals) as [v2|e]; reflexivity.
+Qed.
+
+Lemma script_const_single : forall v n f, script_np (CConst v n) (one_fn f) = [mat_only (const_np v n f)].
+Proof.
+  intros v n f. unfold script_np, const_np, st_build, one_fn.
+  destruct (np_array (const_encode v)) as [[dv sv]|e]; cbn [bind]; [|reflexivity].
+  destruct f as [g|]; [cbn [script_run st_fn bind] | cbn [script_run st_expand apply_fn bind]].
+  - destruct (apply_fn (Some g) dv sv) as [[dv' sv']|e]; cbn [bind]; [|reflexivity].
+    cbn [script_run st_expand]. destruct (n <? 0)%Z; [reflexivity|].
+    destruct (const_materialize sv' (Z.to_nat n)); reflexivity.
+  - destruct (n <? 0)%Z; [reflexivity|]. destruct (const_materialize sv (Z.to_nat n)); reflexivity.
+Qed.
+
+Lemma script_func_single : forall b cfg n, script_np (CFunc b cfg n) [KMat] = [mat_only (func_np b cfg n)].
+Proof.
+  intros b cfg n. unfold script_np, st_build. cbn [script_run st_expand].
+  destruct (mat_only (func_np b cfg n)); reflexivity.
+Qed.
